@@ -9,7 +9,12 @@ Import ListNotations.
 Close Scope Q_scope.
 Open Scope Z_scope.
 
-Record ccase := mkcc { cc_sp : specs; cc_nodes : list znode; cc_edges : list zedge; cc_absent : Z }.
+Record ccase := mkcc { cc_sp : specs; cc_nodes : list znode; cc_edges : list zedge; cc_absent : Z;
+                        cc_readd : list Z }.
+
+(* nodes re-added AFTER the edges (add_node on an existing name: the documented way to update attributes) *)
+Definition readd (g : zstate) (xs : list Z) : outcome zstate :=
+  fold_left (fun r x => match r with Ok g' => add_node zeqb g' (mknode x (Some 7%Z)) | e => e end) xs (Ok g).
 
 Definition comps_obs (kc ks : Z) (r : outcome (list (list Z))) : list obs :=
   (kc, [[outcome_code r]], []) ::
@@ -99,7 +104,7 @@ Definition chk_all (g : zstate) : bool :=
   forallb (chk_parts g) (seq 1 (length names + 2)).
 
 Definition obs_of (c : ccase) : list obs :=
-  let r := build (cc_sp c) (cc_nodes c) (cc_edges c) in
+  let r := match build (cc_sp c) (cc_nodes c) (cc_edges c) with Ok g0 => readd g0 (cc_readd c) | e => e end in
   (1, [[outcome_code r]], []) ::
   match r with
   | Ok g =>
